@@ -88,7 +88,10 @@ func sliceOf[T any](f hash.HashFunc[[]T], parse func(string) (T, bool)) hashInst
 	}
 }
 
-func sint[T ~int | ~int8 | ~int16 | ~int32 | ~int64](s string) (T, bool) { v, ok := pInt(s); return T(v), ok }
+func sint[T ~int | ~int8 | ~int16 | ~int32 | ~int64](s string) (T, bool) {
+	v, ok := pInt(s)
+	return T(v), ok
+}
 func uint_[T ~uint | ~uint8 | ~uint16 | ~uint32 | ~uint64 | ~uintptr](s string) (T, bool) {
 	v, ok := pUint(s)
 	return T(v), ok
@@ -245,9 +248,9 @@ func execHashFn(c hx.Case) hx.Result {
 		}
 		return res
 	}
-	first := map[string]uint64{}    // argument -> value of its first call in this case
-	var last [2]string              // previous argument per instance
-	var calls [2]int                // calls per instance
+	first := map[string]uint64{} // argument -> value of its first call in this case
+	var last [2]string           // previous argument per instance
+	var calls [2]int             // calls per instance
 	seenBy := [2]map[string]bool{{}, {}}
 	zero := map[string]bool{"x": true, "0": true, "false": true, "-": true, "0:0": true}
 	for i, op := range c.Ops {
